@@ -22,6 +22,9 @@ CSS_KEYS = ["fontSize", "font_size", "WebkitX", "x_Y", "_a", "a_", "É", "aΣ", 
 
 
 def token(rng) -> str:
+    import gen
+    if gen.EXTRA and rng.random() < 0.25:      # change-directed: literals the source has gained (harness/literals.py)
+        return rng.choice(gen.EXTRA)
     r = rng.random()
     if r < 0.6:
         return rng.choice(TOKS)
@@ -150,9 +153,10 @@ def css_value(rng) -> str:
 
 
 def _css(rng) -> tuple[list, str]:
+    import gen
     keys = []
     for _ in range(rng.choice([0, 1, 1, 2, 3, 5])):
-        k = rng.choice(CSS_KEYS) if rng.random() < 0.7 else "".join(rng.choice("abXY_Σσé-İß9Z") for _ in range(rng.randint(1, 6)))
+        k = rng.choice(CSS_KEYS + gen.EXTRA) if rng.random() < 0.7 else "".join(rng.choice("abXY_Σσé-İß9Z") for _ in range(rng.randint(1, 6)))
         if k not in keys:
             keys.append(k)
     collapse = rng.choice([S(""), S(""), S(""), S("\n"), S(" "), S(";x")] * 4 + ["N", "I 1", "D " + es("1.5"), H(""), "T"])
